@@ -60,12 +60,16 @@ class Ctx:
             self.breaks.append({"kind": "correspondence-break", "what": stream, "request": clip(request),
                                 "model": clip(model), "impl": clip(impl), "note": note})
 
-    def violation(self, what, request, expected, observed, kind="impl-failing-input"):
-        """a concrete failing input shown against the real code"""
+    def violation(self, what, request, expected, observed, kind="impl-failing-input", klass=None):
+        """a concrete failing input shown against the real code.
+        `klass`: a decidable class of cases the check itself established for this failure (used only to
+        attribute it to a `callsite` entry of known_findings.json)"""
         key = request
         for e in self.known:
             m = e.get("match", {})
-            if m.get("request") == key and e.get("status") == "known":
+            hit = (m.get("kind") in (None, "input", "history") and m.get("request") == key) or \
+                  (m.get("kind") == "callsite" and klass is not None and m.get("class") == klass)
+            if hit and e.get("status") == "known":
                 line = "KNOWN-FINDING: property=%s %s" % (self.pid, e.get("what", what))
                 if line not in self.known_printed:
                     self.known_printed.append(line)
